@@ -1,7 +1,7 @@
 (* C10 — Reroot, cut and subset change the tree exactly as specified. *)
 From Coq Require Import List ZArith Bool.
 Import ListNotations.
-From Navis Require Import model.Forest model.Ops model.Subgraph proofs.ForestWF proofs.RerootProofs proofs.SubsetCut proofs.OpsWF proofs.SubgraphProofs.
+From Navis Require Import model.Forest model.Ops model.Subgraph proofs.ForestWF proofs.RerootProofs proofs.SubsetCut proofs.OpsWF proofs.SubgraphProofs proofs.SteinerMin.
 Open Scope Z_scope.
 
 (* --- reroot only re-orients edges --- *)
@@ -78,13 +78,16 @@ Theorem C10_subset_tags : forall S t tags k ns,
 Proof. exact subset_tags_spec. Qed.
 Print Assumptions C10_subset_tags.
 
-(* --- prevent_fragments: connected superset on the paths between requested nodes ---
-   (partial: superset, connectedness and "nothing off the requested nodes' root paths is added" are proved;
-    that the top node is the deepest common ancestor -- hence global minimality -- is decided on every
-    implementation output by comparing with the executable model, not proved) *)
-Theorem C10_connected_superset_partial : forall t S s, WF t -> In s S -> In s (ids t) -> In s (steiner t S).
+(* --- prevent_fragments: the SMALLEST connected superset: it contains the requested nodes, is connected, lies on the requested
+   nodes' root paths, and is contained in every connected node set that contains the requested nodes (proofs/SteinerMin.v) --- *)
+Theorem C10_connected_superset : forall t S s, WF t -> In s S -> In s (ids t) -> In s (steiner t S).
 Proof. exact steiner_superset. Qed.
-Print Assumptions C10_connected_superset_partial.
+Print Assumptions C10_connected_superset.
+
+Theorem C10_connected_subgraph_minimal : forall t Sc s0 rest U, WF t -> Sc = s0 :: rest -> incl Sc (ids t) ->
+  common_anc t Sc s0 <> [] -> incl Sc U -> connected_set t U -> incl (steiner_comp t Sc) U.
+Proof. exact steiner_comp_minimal. Qed.
+Print Assumptions C10_connected_subgraph_minimal.
 
 Theorem C10_connected_subgraph_connected : forall t Sc s0 rest v, WF t -> Sc = s0 :: rest -> incl Sc (ids t) ->
   In v (steiner_comp t Sc) -> v <> top_of t Sc s0 ->
